@@ -22,7 +22,9 @@ EXPLANATION = (
     "R2 sample-then-step: the record store precedes the update, is guarded by iteration-counter %% stride == 0, advances its "
     "cursor exactly once per store (scan form: the outer scan emits the block's start state).  R3 one formula for the number of "
     "rows: every solver's row count and the num= of the time axis normalise to round(T/dts); the axis is linspace(0, T, num, "
-    "endpoint=False).  R4 cutoff flows only into a label slice .loc[cutoff:] of the frame indexed by the time vector.  NOT decided: "
+    "endpoint=False).  R4 cutoff flows only into a label slice .loc[cutoff:] of the frame indexed by the time vector.  R5 the history "
+    "of a delayed model is fed with the step's result; R6 its lookup (DDEHistory.__call__) clamps and interpolates between the records "
+    "around the query for any order of reads (the C19-R5 analysis, reused).  NOT decided: "
     "accuracy of adaptive solvers, correctness of the vector field itself (C01), pandas/numpy semantics."
 )
 RULE_TEXT = ("instances = solver overrides resolved through the MRO; each is summarised by symbolic execution of one step; "
@@ -90,23 +92,7 @@ def r2_sample_then_step(ctx, rid):
         st = s.store
         node = st.get("node") or s.f.node
         facts = {k: v for k, v in st.items() if k != "node"}
-        if s.form == "loop":
-            need = ["test_is_counter_mod_stride_eq_0", "stored_value_is_state", "inc_ok", "store_before_inc", "store_before_update"]
-            if st.get("n_store_ifs") != 1 or st.get("stores_in_branch") != 1:
-                raise AnalysisError(f"{rid}: {s.f.qual}: record store has an unrecognised form ({facts})")
-            bad = [k for k in need if not st.get(k)]
-            if st.get("cursor_written_elsewhere_in_loop"):
-                bad.append("cursor_written_elsewhere_in_loop")
-            if st.get("stride_expr") != "round(dts/dt)":
-                bad.append(f"stride_expr={st.get('stride_expr')}")
-            if st.get("steps_expr") != "round(T/dt)":
-                bad.append(f"steps_expr={st.get('steps_expr')}")
-        else:
-            need = ["emits_start_state", "inner_starts_from_block_start", "outer_carry_is_inner_end", "init_time_is_t0",
-                    "init_state_is_y", "time_carry_advances_by_one"]
-            bad = [k for k in need if not st.get(k)]
-            if st.get("stride_expr") != "round(dts/dt)":
-                bad.append(f"stride_expr={st.get('stride_expr')}")
+        bad = S.cadence_defects(s, rid)
         if bad:
             ctx.violation(rid, s.f, node, f"sample-then-step cadence broken ({', '.join(bad)}): row 0 must be the initial state and row k the "
                                           f"state after k*stride updates", facts)
@@ -312,6 +298,14 @@ def r5_history_fed_with_step_result(ctx, rid):
     r4_history_time_units(ctx, rid)
 
 
+def r6_history_lookup(ctx, rid):
+    """For a delayed model the iterates are those of the compiled vector field only if the history object the fixed-step solvers
+    feed (R5) answers every delayed read - several delays, any order of reads within a step - from the two records around the query
+    time: the clamp/interpolation rule of C19-R5 on DDEHistory.__call__, reused here."""
+    from .c19 import r5_query
+    r5_query(ctx, rid)
+
+
 RULES = [
     ("C03-R0", r0_step_formula, 5),
     ("C03-R1", r1_borrowed_buffer, 5),
@@ -319,4 +313,5 @@ RULES = [
     ("C03-R3", r3_rows_and_time_axis, 7),
     ("C03-R4", r4_cutoff, 2),
     ("C03-R5", r5_history_fed_with_step_result, 6),
+    ("C03-R6", r6_history_lookup, 3),
 ]
